@@ -515,6 +515,15 @@ def check_simu(case, rec):
                 raise Inconclusive(f"global/local Newton did not converge [{sg['local']} rate_n={sg['rate_n']} "
                                    f"kin={min(sg['nkin'], 1)} br={min(sg['nbranch'], 1)}]: {str(e)[:24]}")
             raise
+        except np.linalg.LinAlgError as e:
+            # the local Newton (Behavior.__Flow) hit a singular Jacobian at a trial state of the global iteration (stiff rate law):
+            # the step does not converge, which puts it outside the quantifier like the documented non-convergence assertion
+            import traceback
+
+            if "__Flow" in traceback.format_exc() or "_Flow" in traceback.format_exc():
+                rec.label("simu:local_jacobian_singular")
+                raise Inconclusive(f"local Newton: singular Jacobian [{sg['local']} rate_n={sg['rate_n']}]: {str(e)[:24]}")
+            raise
 
     saved = []           # per Save_Iter: (state, displacement, load level)
     level = 0
